@@ -51,6 +51,13 @@ Dimension audit families (small, complete over listed spaces):
   (all families) result identity: alignment[:], [:, :], all-true mask, all rows, remove_gaps, remove_terminal_gaps
             return a new object with its own sequence list; re-binding edits of the result leave the operand intact.
             FASTA is read back with '-', '_', both mixed, and two custom additional_gap_chars mixed with '-'.
+  third     (same in both tiers) a substitution matrix over a larger alphabet than the sequences use and rows of
+            different alphabets (score, '='/'X' CIGAR, align_multiple for all 2- and 3-tuples over 5 listed sequences);
+            rows of unequal length for the string / FASTA reader in both directions; the battery and align_multiple
+            under np.errstate(all='raise') and minimal print options; stored alignment.score vs score(); explicit
+            additional_gap_chars vs the default; supplied distances at the boundaries of the minimum search (all zero,
+            zero/one ties, last pair smallest, 1e30, NaN with a supplied tree) for all multisets of 3 and 4 sequences
+            of length <= 2.  __getitem__ also takes row selections that repeat rows (more rows than the source).
   msa_alpha align_multiple for matrix alphabets of 254..257 symbols and for uint8-coded sequences with a 300-symbol
             matrix (the neutral gap symbol needs one more symbol code).
 """
@@ -116,6 +123,8 @@ ASSUMPTIONS = [
     "object / list identity and re-binding edits are demanded",
     "index-skipping traces are not written as CIGAR (not expressible); the FASTA sequence type guessed from the letters "
     "is documented behaviour: for protein symbols only the trace is demanded when no seq_type is given",
+    "gapped rows of unequal length (string / FASTA reader), supplied distances that are NaN or 1e30, and '_' in a file "
+    "read with explicit additional_gap_chars are unspecified: exception, or a result that satisfies the oracle",
     "a row that belongs to an empty sequence is a valid trace row (all gaps): codes, symbols, identity 'all', score with "
     "terminal penalty and CIGAR are demanded, terminal-gap dependent results and FASTA read-back are unspecified",
 ]
@@ -186,6 +195,10 @@ def bounds(tier):
                                   "align_multiple n = 2, 3; all 5 palettes"),
             "values": "10 CIGAR operations, 16 nucleotide + 24 protein alphabet symbols, every seed",
             "fasta_gap_modes": ["-", "_", "mixed -/_", "custom . ~ mixed with -"],
+            "third": {"matrix_alphabet": "16-symbol nucleotide matrix x 7 listed sequences (4- and 16-symbol alphabets), all "
+                                         "ordered pairs x every end-to-end trace with <= max(len)+1 columns; MSA: 5 sequences, n = 2, 3",
+                      "boundary_distances": list(BOUNDARY_DISTS), "boundary_msa": "all multisets n = 3, 4 over 6 sequences",
+                      "ambient": "np.errstate(all='raise') + printoptions(threshold=0): all (2,2) traces, 3 MSAs"},
             "alphabet_sizes": "matrix = sequences: 254, 255, 256, 257; matrix/sequences: 300/200, 300/256, 257/256",
         },
         "msa_gap_penalties": MSA_GAPS,
@@ -702,13 +715,17 @@ def row_selections(n):
             out.append(("list", list(perm)))
             out.append(("intarr", np.array(perm, dtype=np.int64)))
     out.append(("tuple", tuple(range(n - 1, -1, -1))))
+    # more rows than the source has (a row may be repeated)
+    out.append(("list_repeat", [0, 0]))
+    out.append(("list_repeat", list(range(n)) + [0]))
+    out.append(("intarr_repeat", np.array([n - 1] + list(range(n)) + [n - 1], dtype=np.int64)))
     for bits in itertools.product([False, True], repeat=n):
         if any(bits):
             out.append(("mask", np.array(bits, dtype=bool)))
     return out
 
 
-ARRAYISH = {"mask", "intarr", "list", "negarr", "tuple"}
+ARRAYISH = {"mask", "intarr", "list", "negarr", "tuple", "list_repeat", "intarr_repeat"}
 
 
 def part_getitem(b, tier):
@@ -736,7 +753,7 @@ def part_getitem(b, tier):
             exp_s = [b.seqs[r] for r in rpos]
             extra = (lambda cl=cl, cidx=cidx, rl=rl, ridx=ridx: {"cols": [cl, repr(cidx)], "rows": [rl, repr(ridx)]})
             paired = cl in ARRAYISH and rl in ARRAYISH
-            if paired and n > 2 and (cl not in ("mask", "intarr") or rl not in ("list", "mask")):
+            if paired and n > 2 and (cl not in ("mask", "intarr") or rl not in ("list", "mask", "list_repeat")):
                 # three rows: the class is exercised with masks / int arrays x row lists / row masks only
                 continue
             try:
@@ -1333,6 +1350,16 @@ def dist_matrix(kind, n):
                 d[i, j] = 1 + abs(i - j)
             elif kind == "mod":
                 d[i, j] = 1 + ((i * j + i + j) % 3) * 0.5
+            elif kind == "zero":
+                d[i, j] = 0.0
+            elif kind == "zero_one":
+                d[i, j] = float((min(i, j) + max(i, j) * 2) % 2)
+            elif kind == "last_pair_wins":
+                d[i, j] = 5.0 - (min(i, j) + max(i, j)) * 0.5
+            elif kind == "huge":
+                d[i, j] = 1e30 * (1 + abs(i - j))
+            elif kind == "nan":
+                d[i, j] = float("nan")
             else:
                 d[i, j] = 1.0
     return d
@@ -1531,10 +1558,10 @@ def check_msa(ctx, case):
                 bad("tree_not_the_supplied_one", "returned tree differs from the supplied binary guide tree",
                     tree_before, call(rtree.to_newick))
     if dist is not None:
-        if not np.array_equal(dist, dist_before):
+        if not np.array_equal(dist, dist_before, equal_nan=True):
             bad("distances_mutated", "the supplied distance matrix was changed", dist_before.tolist(), dist.tolist())
         rd = np.asarray(rdist)
-        if rd.shape != (n, n) or not np.allclose(rd, dist_before, rtol=1e-6, atol=0):
+        if rd.shape != (n, n) or not np.allclose(rd, dist_before, rtol=1e-6, atol=0, equal_nan=True):
             bad("distances_not_the_supplied_ones", "returned distance matrix differs from the supplied one",
                 dist_before.tolist(), rd.tolist())
     else:
@@ -2318,6 +2345,167 @@ def run_values(shard, ctx):
                     bad("fasta_round_trip", "FASTA round trip wrong (%s sequence type)" % label, [s0, s1], repr(r)[:160])
 
 
+
+# ---------------------------------------------------------------------------
+# third audit: operands of another size, ambient state, option precedence, boundaries of the minimum search
+# ---------------------------------------------------------------------------
+BOUNDARY_DISTS = ("zero", "zero_one", "last_pair_wins", "huge", "nan")
+
+
+def run_third(shard, ctx):
+    import biotite.sequence as bseq
+    import biotite.sequence.align as balign
+    from biotite.sequence.io import fasta
+
+    e = env(shard["pal"])
+    case0 = {"kind": "third", "pal": e.pi}
+
+    def bad(sig, what, exp=None, obs=None, **extra):
+        ctx.violation(sig, what, dict(case0, **extra), exp, obs)
+
+    # ---- F: the second operand is LARGER than the first / refers to more than the first has ------------------
+    # (a) substitution matrix over a larger alphabet than the sequences use; sequences of different alphabets
+    N = bseq.NucleotideSequence
+    amb = N("ACGTN").get_alphabet()
+    k = len(amb)
+    ii, jj = np.meshgrid(np.arange(k), np.arange(k), indexing="ij")
+    table = (((ii + jj) * 2 + ii * jj) % 9 - 4).astype(np.int32)
+    np.fill_diagonal(table, 5)
+    table = np.minimum(table, table.T)
+    big = balign.SubstitutionMatrix(amb, amb, table)
+    code = {x: i for i, x in enumerate(amb.get_symbols())}
+
+    def sub(x, y):
+        return int(table[code[x], code[y]])
+    words = ["A", "AC", "ACG", "GC", "ACNT", "NA", "CGT"]
+    for s0, s1 in itertools.product(words, repeat=2):
+        for t in M.enum_traces(((0, len(s0)), (0, len(s1)))):
+            if len(t) > max(len(s0), len(s1)) + 1:
+                continue
+            ctx.ev(1, 1)
+            aln = balign.Alignment([N(s0), N(s1)], np.array(t))
+            for gap, tp in ((-3, True), ((-5, -1), False)):
+                exp = M.score_values((s0, s1), t, sub, gap, tp)
+                r = call(balign.score, aln, big, gap, tp)
+                if exp is not None and (r[0] != "ok" or fnum(r[1]) not in {float(v) for v in exp}):
+                    bad("score|mismatch|matrix_alphabet_larger_than_sequence_alphabet", "score with a matrix over a larger "
+                        "alphabet differs", sorted(exp), repr(r)[:80], seqs=[s0, s1], trace=t)
+            cg = call(balign.write_alignment_to_cigar, aln, distinguish_matches=True, include_terminal_gaps=True)
+            expc = M.cigar_expected(t, s0, s1, (), True, False, True)
+            if expc["status"] == "ok" and (cg[0] != "ok" or M.cigar_expand(M.cigar_parse(cg[1])) != expc["expanded"]):
+                bad("write_alignment_to_cigar|mismatch|mixed_alphabets", "'='/'X' wrong for rows of different alphabets",
+                    expc["expanded"], repr(cg)[:80], seqs=[s0, s1], trace=t)
+    msa_sets = [list(x) for n_ in (2, 3) for x in itertools.product(["AC", "ACNT", "NA", "CGT", "A"], repeat=n_)]
+    for tup in msa_sets:
+        ctx.ev(1, 1)
+        objs = [N(x) for x in tup]
+        r = call(balign.align_multiple, objs, big, gap_penalty=-3)
+        if r[0] != "ok":
+            bad("align_multiple|raises_%s|matrix_alphabet_larger_than_sequence_alphabet" % r[1], r[2], None, None, seqs=tup)
+            continue
+        aln = r[1][0]
+        t = obs_trace(aln.trace, len(tup))
+        rows_ok = not isinstance(t, str) and M.trace_problem(t, len(tup), [len(x) for x in tup]) is None and all(
+            [c[i] for c in t if c[i] != M.GAP] == list(range(len(tup[i]))) for i in range(len(tup)))
+        if [str(x) for x in aln.sequences] != tup or not rows_ok or [str(x) for x in objs] != tup:
+            bad("align_multiple|rows_wrong|matrix_alphabet_larger_than_sequence_alphabet", "MSA of sequences with different "
+                "alphabets under a larger matrix alphabet is wrong", tup, [[str(x) for x in aln.sequences], t], seqs=tup)
+        elif any(a.get_alphabet() != o.get_alphabet() for a, o in zip(aln.sequences, objs)):
+            bad("align_multiple|alphabet_changed|matrix_alphabet_larger_than_sequence_alphabet",
+                "a returned sequence has another alphabet than its input", None, None, seqs=tup)
+    # (b) rows of unequal length handed to the string reader, in both directions (malformed: exception or a valid trace)
+    a, b_ = e.a, e.b
+    for rows in ([a + b_, a + b_ + a + a], [a + b_ + a + a, a + b_], [a + "-", a + b_ + a], [a + b_ + a, "-" + a],
+                 [a, a + b_, a + b_ + a], [a + b_ + a, a + b_, a]):
+        ctx.ev(1, 1)
+        ctx.count("unspecified")
+        r = call(balign.Alignment.trace_from_strings, rows)
+        if r[0] == "ok":
+            t = obs_trace(r[1], len(rows))
+            lens_ = [len(x.replace("-", "")) for x in rows]
+            if isinstance(t, str) or M.trace_problem(t, len(rows), lens_) is not None:
+                bad("trace_from_strings|invalid_trace|rows_of_unequal_length", "rows of unequal length gave an invalid trace",
+                    "exception or a valid trace", t, rows=rows)
+        if e.p["type"] != "gen":
+            f = fasta.FastaFile()
+            for i, x in enumerate(rows):
+                f["r%d" % i] = x
+            r = call(fasta.get_alignment, f, seq_type=e.cls)
+            if r[0] == "ok":
+                t = obs_trace(r[1].trace, len(rows))
+                if isinstance(t, str) or M.trace_problem(t, len(rows), [len(x) for x in r[1].sequences]) is not None:
+                    bad("fasta.get_alignment|invalid_trace|rows_of_unequal_length", "rows of unequal length gave an invalid "
+                        "trace", "exception or a valid trace", t, rows=rows)
+    # ---- G: ambient numpy state (error mode, print options) must not change any result ------------------------
+    lens = (2, 2)
+    ws = [e.letters(w) for w in ("ab", "ba")]
+    for _r, t in structures(lens):
+        if ctx.journal(json.dumps({"kind": "conv", "pal": e.pi, "seqs": ws, "trace": t, "ambient": True})):
+            with np.errstate(all="raise"), np.printoptions(threshold=0, edgeitems=1, precision=1):
+                run_battery(ctx, e, ws, t, ctx.tier, getitem=False)
+    for tup in (("ab", "ab", "ba"), ("a", "bb", "a"), ("aab", "ab", "b", "ab")):
+        seqs = [e.letters(w) for w in tup]
+        ctx.ev(1, 1)
+        plain = balign.align_multiple([e.fresh(x) for x in seqs], e.mmat, gap_penalty=-2)
+        with np.errstate(all="raise"), np.printoptions(threshold=0, edgeitems=1, precision=1):
+            r = call(balign.align_multiple, [e.fresh(x) for x in seqs], e.mmat, gap_penalty=-2)
+        if r[0] != "ok" or r[1][0].get_gapped_sequences() != plain[0].get_gapped_sequences() or r[1][1].tolist() != plain[1].tolist():
+            bad("align_multiple|depends_on_numpy_state|errstate_raise", "result differs under np.errstate(all='raise')",
+                plain[0].get_gapped_sequences(), repr(r)[:200], seqs=seqs)
+    # ---- H: a value that can come from two places -------------------------------------------------------------
+    sq = [e.letters("aba"), e.letters("ab")]
+    t = ((0, 0), (1, 1), (2, -1))
+    for stored in (None, 0, 999, -7):
+        ctx.ev(1, 1)
+        aln = balign.Alignment([e.seq(x) for x in sq], np.array(t), stored)
+        exp = M.score_values(sq, t, e.sub_asym, -3, True)
+        r = call(balign.score, aln, e.cmat_asym, -3, True)
+        if r[0] != "ok" or fnum(r[1]) not in {float(v) for v in exp}:
+            bad("score|stored_score_wins|explicit_computation", "score() must compute from matrix and penalties, whatever "
+                "alignment.score holds", sorted(exp), repr(r)[:60], stored=stored)
+        if aln.score != stored or aln[1:].score != stored:
+            bad("Alignment|stored_score_lost|indexing", "the stored score is not kept", stored, [aln.score, aln[1:].score])
+    if e.p["type"] != "gen":
+        # explicit additional_gap_chars replace the default ('_'): '_' is then no gap character any more
+        for chars, text_gap, must_work in ((("~",), "~", True), ((), "-", True), (("~",), "_", False), ((), "_", False)):
+            ctx.ev(1, 1)
+            f = fasta.FastaFile()
+            f["x"] = sq[0]
+            f["y"] = sq[1] + text_gap
+            r = call(fasta.get_alignment, f, additional_gap_chars=chars, seq_type=e.cls)
+            if must_work:
+                if r[0] != "ok" or obs_trace(r[1].trace, 2) != t or [str(x) for x in r[1].sequences] != sq:
+                    bad("fasta.get_alignment|explicit_gap_chars_ignored|explicit_vs_default", "explicit additional_gap_chars not "
+                        "honoured", [sq, t], repr(r)[:160], chars=list(chars), gap=text_gap)
+            else:
+                ctx.count("unspecified")
+                if r[0] == "ok" and ([str(x) for x in r[1].sequences] != sq or obs_trace(r[1].trace, 2) != t):
+                    bad("fasta.get_alignment|garbage|default_gap_char_with_explicit_chars", "'_' with explicit gap characters gave "
+                        "neither an error nor the alignment", None, repr(r)[:160], chars=list(chars))
+    # ---- I: boundaries of the minimum-distance search in the progressive alignment ---------------------------
+    words6 = [w for w in SEQ_WORDS if len(w) <= 2]
+    for n in (3, 4):
+        trees = [None, caterpillar(n), balanced(list(range(n))), caterpillar(n, True)]
+        for k_, ms in enumerate(itertools.combinations_with_replacement(words6, n)):
+            for dk in BOUNDARY_DISTS:
+                tr = trees[(k_ + len(dk)) % 4]
+                if dk == "nan" and tr is None:
+                    tr = trees[1]     # NaN distances cannot give a guide tree: only with a supplied tree
+                case = {"kind": "msa", "pal": e.pi, "words": list(ms), "gap": MSA_GAPS[1 + k_ % 2], "tp": bool(k_ % 3),
+                        "dist": dk, "tree": tr, "share": True}
+                if not ctx.journal(json.dumps(case)):
+                    continue
+                if dk in ("nan", "huge"):
+                    # outside 'distances larger than 0' in a sensible range: exception or a correct MSA
+                    ctx.count("unspecified")
+                    sub_ctx_v = len(ctx.violations)
+                    r = call(balign.align_multiple, [e.fresh(e.letters(w)) for w in ms], e.mmat, gap_penalty=-2,
+                             distances=dist_matrix(dk, n), **({"guide_tree": build_tree(tr)} if tr is not None else {}))
+                    if r[0] != "ok":
+                        continue
+                check_msa(ctx, case)
+
+
 # ---------------------------------------------------------------------------
 # misuse
 # ---------------------------------------------------------------------------
@@ -2334,6 +2522,7 @@ def run_misuse(shard, ctx):
         ("get_pairwise_sequence_identity|accepts_unknown_mode", lambda: balign.get_pairwise_sequence_identity(a2, "bogus")),
         ("fasta.set_alignment|accepts_wrong_name_count", lambda: fasta.set_alignment(fasta.FastaFile(), a2, ["x"])),
         ("score|accepts_bad_gap_type", lambda: balign.score(a2, e.cmat_sym, "x")),
+        ("fasta.set_alignment|accepts_more_names_than_rows", lambda: fasta.set_alignment(fasta.FastaFile(), a2, ["x", "y", "z"])),
     ]
     for sig, fn in checks:
         ctx.ev(1, 1)
@@ -2416,6 +2605,9 @@ def shards(tier, seed):
         for k in range(cparts):
             out.append({"kind": "derived", "what": "cigar", "max_ops": 2 if q else 3, "pal": p, "part": k, "parts": cparts})
         out.append({"kind": "derived", "what": "msa", "pal": p})
+    # third audit (the same in both tiers)
+    for p in ([pi] if q else allp):
+        out.append({"kind": "third", "pal": p})
     out.append({"kind": "msa_alpha", "dist": False})
     out.append({"kind": "msa_alpha", "dist": True})
     # cigar reader
@@ -2459,7 +2651,7 @@ def shards(tier, seed):
     out.append({"kind": "misuse", "pal": pi})
     # heaviest first
     weight = {"msa": 0, "family": 1, "produced": 2, "cigar": 3, "misuse": 4, "many": 2, "flavour": 2, "msa_alpha": 1,
-              "long": 3, "edge": 3, "reuse": 4, "skip": 2, "derived": 2, "values": 4}
+              "long": 3, "edge": 3, "reuse": 4, "skip": 2, "derived": 2, "values": 4, "third": 2}
     out.sort(key=lambda s: weight[s["kind"]])
     return out
 
@@ -2494,6 +2686,8 @@ def run_shard(shard, ctx):
         run_derived(shard, ctx)
     elif k == "values":
         run_values(shard, ctx)
+    elif k == "third":
+        run_third(shard, ctx)
     else:
         raise ValueError(shard)
 
@@ -2516,6 +2710,8 @@ def replay(case, ctx):
         check_arg_flavours(ctx, e, case["seqs"], [tuple(c) for c in case["trace"]])
     elif k == "values":
         run_values({"pal": case["pal"]}, ctx)
+    elif k == "third":
+        run_third({"pal": case["pal"]}, ctx)
     elif k == "derived_cigar":
         import biotite.sequence.align as balign
         ops = M.cigar_parse(case["cigar"])
